@@ -28,6 +28,11 @@ CLAIMED = {
             "Trusted: as C02.",
             "deterministic simulation + crash-point enumeration + transaction-block oracle",
             "DESIGN.md §3 C09"),
+    "C10": ("exploration",
+            "Filter-heavy stratum of the fault-free replay simulation: drawn filter configurations (overlapping/nested/adjacent slot ranges, binary prefixes, mixed-case command lists, DB lists) x streams with adversarial keys (all brace arrangements, near-miss prefixes, reserved keys); the commands reaching the target double are compared with a direct evaluation of the configured rules (HASH_SLOT from the cluster specification). The property has no schedule/fault axis; the simulator contributes the end-to-end observation point and the seeded generator.",
+            "Trusted: the harness' rule evaluator and key-position table (from the Redis command reference), Redis double. Snapshot-key filtering is exercised by the C03 harness, not here.",
+            "deterministic simulation (end-to-end target log) + independent rule evaluator; input/configuration search only",
+            "DESIGN.md §3 C10"),
 }
 
 NOT_APPLICABLE = {
